@@ -1051,6 +1051,174 @@ def rule_exports(c, R, main):
     c.expect(len(nat) == 1 and (jsast.member_chain(nat[0]["right"]) or [""])[-1] == "Rewriter", R, R + "/native-class", main.loc(nat[0]) if nat else "main.js", "NativeRewriter = <wasm module>.Rewriter", "NativeRewriter is assigned %s" % (JF.text(nat[0]["right"]) if nat else None))
 
 
+def rule_map_table(c, R, nsm, sm):
+    """MAP-TABLE: the vendored source-map reader - what the parser stores per segment is what the
+    lookup reads, in the order of the source-map format; the lookup is a greatest-lower-bound search
+    on (generated line, generated column)"""
+    F = File(nsm)
+    jf = nsm
+
+    def is_vlq(n):
+        if n.get("type") != "CallExpression":
+            return False
+        nm = method_name(n) or (chain(n) or [""])[-1]
+        return "vlq" in (nm or "").lower()
+
+    # --- writer: the segments pushed into _mappings -------------------------------------------------
+    pushes = []
+    for n in jsast.walk(jf.program):
+        if n.get("type") != "CallExpression":
+            continue
+        a = args(n)
+        tgt = None
+        arr = None
+        if chain(n)[-1:] == ["ArrayPrototypePush"] and len(a) == 2:
+            tgt, arr = a[0], a[1]
+        elif method_name(n) == "push" and len(a) == 1:
+            tgt, arr = _callee(n)["object"], a[0]
+        if tgt is not None and JF.text(tgt).endswith("_mappings") and arr.get("type") == "ArrayExpression":
+            pushes.append((n, [JF.unparen(e["expression"]) if e else None for e in arr.get("elements", [])]))
+    full = [(n, el) for n, el in pushes if len(el) == 6]
+    c.floor(R, "segments stored by the map parser", len(full), 1)
+    if not full:
+        return
+    top = F.enclosing_fn(full[0][0])
+    # the VLQ fields of a segment in the order they are decoded: generated column, source index,
+    # original line, original column, name index (source-map v3)
+    decodes = []
+    for n in jsast.walk(top):
+        if n.get("type") in ("AssignmentExpression",) and is_vlq(JF.unparen(n["right"])):
+            decodes.append((n.get("span", {}).get("start", 0), jsast.ident_name(n["left"]), n["operator"]))
+        if n.get("type") == "VariableDeclarator" and n.get("init") is not None and is_vlq(JF.unparen(n["init"])):
+            decodes.append((n.get("span", {}).get("start", 0), jsast.ident_name(n["id"]), "="))
+    decodes.sort()
+    names = [d[1] for d in decodes]
+    c.expect(len(decodes) == 5, R, R + "/vlq-fields", jf.loc(top), "five VLQ fields per segment: %s" % names, "the parser decodes %d VLQ fields per segment (%s), the format has five" % (len(decodes), names))
+    if len(decodes) == 5:
+        for n, el in full:
+            ids = [jsast.ident_name(e) for e in el]
+            ok = ids[1] == names[0] and ids[3] == names[2] and ids[4] == names[3] and all(d[2] == "+=" for d in (decodes[0], decodes[2], decodes[3], decodes[4]))
+            c.expect(ok, R, R + "/segment-layout", jf.loc(n), "segment = [line, column(field 1), source, original line(field 3), original column(field 4), name], fields accumulated with +=", "the stored segment is %s but the decoded fields are %s (relative values, in this order): original line and column end up in the wrong slots or are not accumulated" % (ids, names))
+            # the generated line: incremented per `;`, the column reset with it
+            line_v, col_v = ids[0], ids[1]
+            resets = [x for x in jsast.walk(top) if x.get("type") == "AssignmentExpression" and x["operator"] == "=" and jsast.ident_name(x["left"]) == col_v and JF.unparen(x["right"]).get("value") == 0]
+            incs = [x for x in jsast.walk(top) if (x.get("type") == "AssignmentExpression" and x["operator"] == "+=" and jsast.ident_name(x["left"]) == line_v and JF.unparen(x["right"]).get("value") == 1) or (x.get("type") == "UpdateExpression" and x.get("operator") == "++" and jsast.ident_name(x.get("argument")) == line_v)]
+            same_block = any(F.parent(F.parent(r)) is F.parent(F.parent(i)) for r in resets for i in incs)
+            c.expect(bool(resets) and bool(incs) and same_block, R, R + "/line-advance", jf.loc(n), "`;` advances the generated line and resets the generated column", "a new generated line does not (only) advance `%s` by one and reset `%s` to 0" % (line_v, col_v))
+    # names bound to a slot of an array by destructuring: const { 0: a, 1: b } = e / const [a, b] = e
+    slots = {}
+    for d in jsast.walk(jf.program):
+        if d.get("type") == "VariableDeclarator" and d.get("init") is not None and JF.unparen(d["init"]).get("type") == "Identifier":
+            base = JF.unparen(d["init"])["value"]
+            if d["id"].get("type") == "ObjectPattern":
+                for pp in d["id"]["properties"]:
+                    if pp.get("type") == "KeyValuePatternProperty" and pp["key"].get("type") == "NumericLiteral" and jsast.ident_name(pp["value"]):
+                        slots[jsast.ident_name(pp["value"])] = (base, pp["key"]["value"])
+            elif d["id"].get("type") == "ArrayPattern":
+                for i_, el in enumerate(d["id"].get("elements", [])):
+                    if el and jsast.ident_name(el):
+                        slots[jsast.ident_name(el)] = (base, i_)
+
+    def slot_ref(e):
+        """(text of the array, slot) for e[k] or a name destructured from slot k"""
+        e = JF.unparen(e)
+        if e.get("type") == "MemberExpression" and e["property"].get("type") == "Computed":
+            k = JF.unparen(e["property"]["expression"]).get("value")
+            if k is not None:
+                return JF.text(e["object"]), k
+        if e.get("type") == "Identifier" and e["value"] in slots and e["value"] not in JF.REN[0]:
+            b_, k = slots[e["value"]]
+            return JF.REN[0].get(b_, b_), k
+        return None
+
+    # --- reader: findEntry ---------------------------------------------------------------------------
+    fe = None
+    for n in jsast.walk(jf.program):
+        if n.get("type") == "ClassMethod" and (n.get("key") or {}).get("value") == "findEntry":
+            fe = n
+    if fe is None:
+        raise AnchorMissing("findEntry in %s" % jf.name)
+    ps = F.params(fe)
+    rets = [x for x in jsast.walk(fe) if x.get("type") == "ReturnStatement" and (x.get("argument") or {}).get("type") == "ObjectExpression" and x["argument"].get("properties")]
+    c.floor(R, "entries returned by findEntry", len(rets), 1)
+    want = {"originalSource": 2, "originalLine": 3, "originalColumn": 4}
+    for r in rets:
+        got = {}
+        for p in r["argument"]["properties"]:
+            if p.get("type") == "KeyValueProperty":
+                sr = slot_ref(p["value"])
+                if sr:
+                    got[p["key"].get("value")] = sr[1]
+            elif p.get("type") == "Identifier" and p["value"] in slots:
+                got[p["value"]] = slots[p["value"]][1]
+        okr = all(got.get(k) == i for k, i in want.items())
+        c.expect(okr, R, R + "/entry-fields", jf.loc(r), "originalSource/Line/Column = slots 2/3/4 of the stored segment", "findEntry reads %s from the stored segment (stored layout: source 2, original line 3, original column 4)" % {k: got.get(k) for k in want})
+    # what the glue destructures are keys findEntry returns
+    keys = {p["key"].get("value") for r in rets for p in r["argument"]["properties"] if p.get("type") == "KeyValueProperty"} | {p["value"] for r in rets for p in r["argument"]["properties"] if p.get("type") == "Identifier"}
+    used = set()
+    for d in jsast.walk(sm.program):
+        if d.get("type") == "VariableDeclarator" and d["id"].get("type") == "ObjectPattern" and d.get("init") is not None and method_name(JF.unparen(d["init"])) == "findEntry":
+            for pp in d["id"]["properties"]:
+                used.add(pp["key"].get("value"))
+    c.expect(bool(used) and used <= keys, R, R + "/entry-keys", jf.loc(fe), "the glue reads %s, all returned by findEntry" % sorted(used), "the glue reads %s from findEntry's result, which only has %s" % (sorted(used - keys), sorted(keys)))
+    # the search: halving steps on a lexicographic (line, column) comparison; the left half is kept iff
+    # the position is before the probe
+    loops = [x for x in jsast.walk(fe) if x.get("type") == "WhileStatement"]
+    c.floor(R, "search loops in findEntry", len(loops), 1)
+    LT0, EQ0, LT1 = BF.atom("line<probe.line"), BF.atom("line=probe.line"), BF.atom("col<probe.col")
+    lex = BF.disj([LT0, BF.conj([EQ0, LT1])])
+
+    def probe_atom(e, probe_names, depth=0):
+        e = JF.unparen(e)
+        # a local predicate `isBefore(line, column, entry)`: its single returned expression, with the
+        # parameters read as the arguments
+        if e.get("type") == "CallExpression" and len(chain(e)) == 1 and chain(e)[0] in F.decls and depth < 2:
+            h = F.decls[chain(e)[0]]
+            rs = [x for x in jsast.walk(h) if x.get("type") == "ReturnStatement" and F.enclosing_fn(x) is h]
+            if len(rs) == 1 and rs[0].get("argument") is not None:
+                old_ = JF.REN[0]
+                ren = {}
+                for k_, p_ in enumerate(F.params(h)):
+                    if p_ is not None and k_ < len(args(e)):
+                        ren[p_] = JF.text(args(e)[k_])
+                JF.REN[0] = ren
+                try:
+                    return JF.formula(rs[0]["argument"], lambda x: probe_atom(x, probe_names, depth + 1))
+                finally:
+                    JF.REN[0] = old_
+            return None
+        if e.get("type") != "BinaryExpression" or e["operator"] not in ("<", "===", "==", ">"):
+            return None
+        l, r = JF.unparen(e["left"]), JF.unparen(e["right"])
+        if e["operator"] == ">":
+            l, r, op = r, l, "<"
+        else:
+            op = e["operator"]
+        for a_, b_ in ((l, r), (r, l)):
+            sr = slot_ref(b_)
+            if a_.get("type") == "Identifier" and sr and sr[0] in probe_names:
+                nm = JF.text(a_)
+                if nm == ps[0] and sr[1] == 0:
+                    return (LT0 if a_ is l else None) if op == "<" else EQ0
+                if nm == ps[1] and sr[1] == 1 and op == "<":
+                    return LT1 if a_ is l else None
+        return None
+
+    for lp in loops:
+        ifs = [x for x in jsast.walk(lp["body"]) if x.get("type") == "IfStatement"]
+        okl = False
+        for st_ in ifs:
+            probes = {jsast.ident_name(d["id"]) for d in jsast.walk(lp) if d.get("type") == "VariableDeclarator" and d.get("init") is not None and JF.unparen(d["init"]).get("type") == "MemberExpression" and JF.text(JF.unparen(d["init"])["object"]).endswith("_mappings")}
+            f_ = JF.formula(st_["test"], lambda e: probe_atom(e, probes))
+            if not equivalent(f_, lex):
+                continue
+            cons = [JF.text(x["expression"]["left"]) + x["expression"]["operator"] + JF.text(x["expression"]["right"]) for x in JF.stmts_of(st_["consequent"]) if x.get("type") == "ExpressionStatement" and x["expression"].get("type") == "AssignmentExpression"]
+            alt = [JF.text(x["expression"]["left"]) + x["expression"]["operator"] + JF.text(x["expression"]["right"]) for x in JF.stmts_of(st_.get("alternate")) if x.get("type") == "ExpressionStatement" and x["expression"].get("type") == "AssignmentExpression"]
+            okl = cons == ["count=step"] and sorted(alt) == ["count-=step", "first=middle"]
+            c.expect(okl, R, R + "/search-step", jf.loc(st_), "position before the probe: keep the left half; otherwise move to the probe and keep the rest", "the halving step is %s / %s" % (cons, alt))
+        c.expect(okl, R, R + "/search-order", jf.loc(lp), "the probe is compared lexicographically on (generated line, generated column)", "findEntry does not compare (line, column) lexicographically with the probed segment")
+
+
 def run(check, c, R, main, sm, st, inline_value):
     Fs = File(sm)
     rule_map_discovery(c, R, Fs, inline_value)
